@@ -11,19 +11,20 @@ META = {
             "item is OWS 1*DIGIT OWS (the mode's regenerated white-space sets) with value v < 2^63; for ALL field "
             "sequences: strict mode uses v iff there is exactly one field and it is such a token; relaxed mode uses v iff "
             "every occurrence (fields, and comma-separated elements trimmed, empty ones ignored) is a token of the same v "
-            "(lists: _partial, for values without NUL and, in list-like fields, without VT/FF/double quote); otherwise "
+            "(lists: _partial only in that values with a double quote in a list-like field are excluded); otherwise "
             "sawBad. For ALL entry lists / header blocks: getInt64(Content-Length) is != -1 only if the interpreter uses "
             "exactly that value, no Transfer-Encoding is present, Content-Length is not prohibited and the header is not "
             "flagged; if no value is used the result is -1 and conflictingContentLength is set unless no occurrence was "
-            "examined. The unrestricted list statement is REFUTED by the real code (C26_*_refuted: `1,<VT>,5` is used "
-            "as 1) = known finding C26-list-stops-at-vt-item. Tie: extracted model vs the real interpreter, "
-            "httpHeaderParseOffset and HttpHeader::parse compiled from the working tree (UBSan), 0 disagreements.",
+            "examined. The former counterexample `1,<VT>,5` (repaired in /repo: strListGetItem skips VT/FF as leading "
+            "delimiters) is proved to be flagged. Tie: extracted model vs the real interpreter, httpHeaderParseOffset "
+            "and HttpHeader::parse compiled from the working tree (UBSan), 0 disagreements.",
     "note": "Trusted: Coq kernel, extraction, gen/gen_charsets.cc (DIGIT/TCHAR/Whitespace/Delimiter per mode), "
             "harness/h_clen.cc; ClenModel.v is validated against the code only on the generated cases. With "
             "Transfer-Encoding present or for 1xx/204/trailers Content-Length is deleted whatever its state and the header "
             "is not flagged: the theorem states that it is then never used. An all-empty list ('Content-Length: ,') counts "
             "as no value (dropped, not flagged). Header-name lookup is modelled only for Content-Length/Transfer-Encoding; "
-            "owners hoRequest/hoReply. Candidate repair for the finding: fixes/C26-list-stops-at-vt-item.diff.",
+            "owners hoRequest/hoReply. Quoted strings inside Content-Length lists are covered by the soundness theorem "
+            "over examined occurrences and by correspondence, not by the iff theorem.",
     "technique": "Coq proof (three-state automaton abstraction of the interpreter, induction over value bytes, list items, "
                  "field sequences and entry lists; vm_compute sweep over the regenerated 256-entry character tables) + "
                  "extracted-model differential correspondence + independent Python oracle on the implementation's answers",
@@ -216,11 +217,9 @@ def token_value(p, relaxed):
     return v if v < TWO63 else None
 
 
-def interpret(values, relaxed, quirk=False):
+def interpret(values, relaxed):
     """The property's reading of a sequence of Content-Length field values:
-    'absent' | 'novalues' | None (ambiguous/invalid) | v.
-    quirk=True reproduces known finding C26-list-stops-at-vt-item (a list is only examined up to the
-    first element that consists of white space starting with VT/FF)."""
+    'absent' | 'novalues' | None (ambiguous/invalid) | v."""
     if not values:
         return "absent"
     occ = []
@@ -231,8 +230,6 @@ def interpret(values, relaxed, quirk=False):
             for piece in val.split(b","):
                 core = piece.strip(ISSPACE)
                 if core == b"":
-                    if quirk and piece.lstrip(b" \t\r\n") != b"":
-                        break
                     continue
                 occ.append(token_value(core, relaxed) if core.isdigit() else None)
         else:
@@ -306,9 +303,6 @@ def judge(got_accept, got_val, flagged, values, relaxed, complete_ok):
     p = problem(interpret(values, relaxed))
     if p is None:
         return None
-    if problem(interpret(values, relaxed, quirk=True)) is None:
-        return ("oracle:list-stops-at-vt-item", "Content-Length %r: %s (list elements after a VT/FF-only element are never examined)"
-                % (values, p[1]))
     return ("oracle:" + p[0], "Content-Length %r: %s" % (values, p[1]))
 
 
@@ -418,5 +412,5 @@ def run(res, tier):
                        "(case-insensitive); owners modelled: hoRequest, hoReply")
     std.run_standard(res, PID, tier, area="clen", build_impl=impl, gen_cases=gen_cases, oracle=oracle,
                      corr_name="ClenModel vs src/http/ContentLengthInterpreter.cc, src/HttpHeaderTools.cc, src/HttpHeader.cc",
-                     gens=["charsets"], n_quick=50000, n_thorough=800000, seed_salt=26, mutate=mutate,
+                     gens=["charsets"], n_quick=40000, n_thorough=800000, seed_salt=26, mutate=mutate,
                      kind_fn=kind, nontrivial_fn=nontrivial)
